@@ -13,24 +13,13 @@
    Topology::Cleanup().  After every call the runner also probes a BoundaryCondition::Clone()
    of the boundary and a Topology filled by CopyTopologyData: both must answer like the
    original.  TLC enumerates every history up to Depth; deeper ones by simulation. *)
-EXTENDS Pbc, TLC, Json, Sequences
+EXTENDS PbcProbe, TLC, Json, Sequences
 
 CONSTANTS Calls,      \* set of [box, req]
           Probes,     \* set of displacements
           Depth, Emit
 VARIABLES h
 vars == <<h>>
-
-P0 == <<1, -2, 3>>            \* position of the first point of every probe
-
-ProbeExp(b, typ, rr) ==
-  LET per == typ # "open"
-      mi == IF per THEN SpecMI(b, rr) ELSE [d2 |-> Norm2(rr), mins |-> {rr}, cert |-> TRUE, nimg |-> 1]
-  IN [r |-> rr, d2 |-> mi.d2, mins |-> mi.mins, cert |-> mi.cert,
-      tie |-> per /\ (Cardinality(mi.mins) > 1 \/ AlgoTie(b, typ, rr)),
-      exact |-> (~per \/ typ = "ortho" \/ BelowHalfHeight(b, mi.d2)),
-      pairs |-> << [i |-> P0, j |-> VAdd(P0, rr),
-                    algo |-> AlgoMI(b, typ, rr), algob |-> AlgoMI(b, typ, VNeg(rr))] >>]
 
 \* An explicitly requested type that does not match the matrix ("ortho" on a non-diagonal
 \* matrix): only what is documented is expected - the requested type is reported, the matrix is
